@@ -302,6 +302,15 @@ pub fn ustr_alts(default: &str) -> Vec<UStr> {
         ucs2: false,
         bare_empty: true, marker: false,
     });
+    // a colour escape whose first component is itself 1B (red = 27)
+    let mut s: Vec<char> = d[.. d.len() / 2].to_vec();
+    s.extend(['\x1b', '\x1b', 'A', 'b']);
+    s.extend(&d[d.len() / 2 ..]);
+    v.push(UStr {
+        chars: s,
+        ucs2: false,
+        bare_empty: true, marker: false,
+    });
     // control characters 01..1A inside
     let mut s = d.clone();
     s.insert(d.len() / 2, '\x01');
